@@ -214,7 +214,7 @@ def _sequence(fl, enabled, threshold, nmsg, a1, a2, a3, jsonp, order):
 
 
 @cond(quick=dict(N0=2, N=2, A=1, timeout=170, parts=dict(FL=[0, 1], ORD=[0, 1, 2], EN=[0, 1])),
-      thorough=dict(N0=0, N=7, A=3, timeout=1200, parts=dict(FL=[0, 1], ORD=[0, 1, 2], EN=[0, 1])))
+      thorough=dict(N0=1, N=3, A=2, timeout=1500, parts=dict(FL=[0, 1], ORD=[0, 1, 2], EN=[0, 1])))
 def labelling_sequences(fl: int, enabled: bool, threshold: int, nmsg: int, a1: int, a2: int, a3: int, jsonp: bool, order: int) -> str:
     """
     pre: fl == P.FL and order == P.ORD and enabled == bool(P.EN) and P.N0 <= nmsg <= P.N and 1 <= a1 <= P.A
